@@ -127,7 +127,8 @@ class CWMMTrainer:
             ]
 
         if saliency is None:
-            saliency = np.ones_like(initialization[..., 0, :])
+            saliency = np.ones_like(
+                initialization[..., 0, :], dtype=y.real.dtype)
 
         if self.dimension is None:
             self.dimension = y.shape[-1]
